@@ -304,6 +304,16 @@ Proof.
     + grun. reflexivity.
     + assert (Hge : xf 0 <= x) by lra. grun. reflexivity.
 Qed.
+Definition Dcall (x : R) : R :=
+  nthR tbl 1 + ts xf (nthR tbl) (List.length xs - 1) (List.length xs - 2) x.
+Lemma deriv_total x :
+  Interpolation_derivative Rops T (VFloat x) = VFloat (Dcall x)
+  \/ Interpolation_derivative Rops T (VFloat x) = VErr ValueError.
+Proof.
+  destruct (Rlt_dec x (xf 0)) as [Lo | Lo]; [right; apply derivative_outside; auto |].
+  destruct (Rlt_dec (xf (List.length xs - 1)) x) as [Hi | Hi]; [right; apply derivative_outside; auto |].
+  left. apply derivative_gen; lra.
+Qed.
 End DerivModel.
 
 (* two points: the slope of the chord *)
